@@ -41,6 +41,8 @@ def ne(e):
         return ("const", e[2] if e[2] is not None else e[1])
     if k in ("local", "phi", "arg"):
         return (k, e[1])
+    if k == "discr":
+        return ("discr", ne(e[1]))
     if k == "agg":
         return ("agg", e[1], e[2], tuple(ne(a) for a in e[3]))
     return ("other", str(e[1:]))
@@ -72,6 +74,8 @@ def sh(e):
         return "arg%d" % e[1]
     if k == "agg":
         return "%s::%s{%s}" % (e[1].split("::")[-1], e[2], ",".join(sh(a) for a in e[3]))
+    if k == "discr":
+        return "discr(%s)" % sh(e[1])
     return "?"
 
 
